@@ -24,6 +24,9 @@ site: http://bugseng.com/products/ppl/ . */
 #include "ppl-config.h"
 #include "assertions.hh"
 #include "Grid_defs.hh"
+#ifdef BUGSENG_PPL_VERIF
+#include "verif_hooks.hh"
+#endif
 
 namespace Parma_Polyhedra_Library {
 
@@ -250,6 +253,9 @@ Grid::rows_are_zero(M& system, dimension_type first,
 
 void
 Grid::simplify(Grid_Generator_System& ggs, Dimension_Kinds& dim_kinds) {
+#ifdef BUGSENG_PPL_VERIF
+  PPL_VERIF_REACH(GRID_SIMPLIFY_G);
+#endif
   PPL_ASSERT(!ggs.has_no_rows());
   // Changes here may also be required in the congruence version below.
 
@@ -388,6 +394,9 @@ Grid::simplify(Grid_Generator_System& ggs, Dimension_Kinds& dim_kinds) {
 
 bool
 Grid::simplify(Congruence_System& cgs, Dimension_Kinds& dim_kinds) {
+#ifdef BUGSENG_PPL_VERIF
+  PPL_VERIF_REACH(GRID_SIMPLIFY_C);
+#endif
   PPL_ASSERT(cgs.space_dimension() != 0);
   // Changes here may also be required in the generator version above.
 
